@@ -59,6 +59,8 @@ def run_callers(rng, log, thread_fns, strategy, trace_files, tape=None, step_cap
         S._orig_thread_join(t, 30.0)
         if t.is_alive():
             raise HarnessError("simulated caller thread did not terminate")
+    if aborted and (aborted == "step-cap" or aborted.startswith("deadlock")):
+        raise S.StepCapExceeded(f"{aborted} after {sched.steps} steps")
     if aborted:
         raise HarnessError(f"caller simulation aborted: {aborted}")
     died = [sched.threads[tid].died for tid in sched.order[1:]]
